@@ -13,7 +13,7 @@ for sid in sorted(os.listdir(os.path.join(ROOT, "seeded"))):
     r = json.load(open(os.path.join(d, "result.json"))) if os.path.exists(os.path.join(d, "result.json")) else {"checks": {}}
     verd = []
     for p, v in sorted(r.get("checks", {}).items()):
-        verd.append("%s: %s" % (p, {"failing-input": "**failing input**", "no-failing-input-found": "no-failing-input-found", "none": "MISSED"}[v["verdict"]]))
+        verd.append("%s: %s" % (p, {"failing-input": "**failing input**", "no-failing-input-found": "no-failing-input-found", "none": "MISSED", "check-crashed": "CHECK CRASHED"}[v["verdict"]]))
     # proof obligations alone (tools/run_seeded.py --obligations: regeneration from the changed source + lake build + axiom audit, no sampling)
     ob = json.load(open(os.path.join(d, "obligations.json"))) if os.path.exists(os.path.join(d, "obligations.json")) else None
     if ob is None:
